@@ -102,22 +102,22 @@ func (f *Fact) Chain(c *core.Ctx) string {
 
 // Analysis is the result.
 type Analysis struct {
-	cfg    Config
-	prog   *core.Prog
-	cg     *callgraph.Graph
-	Val    map[ssa.Value]*Fact
-	Key    map[ssa.Value]*Fact // taint of the keys of a map value, kept apart from its elements
-	Field  map[*types.Var]*Fact
+	cfg      Config
+	prog     *core.Prog
+	cg       *callgraph.Graph
+	Val      map[ssa.Value]*Fact
+	Key      map[ssa.Value]*Fact // taint of the keys of a map value, kept apart from its elements
+	Field    map[*types.Var]*Fact
 	FieldKey map[*types.Var]*Fact
-	RetKey map[*ssa.Function]map[int]*Fact
+	RetKey   map[*ssa.Function]map[int]*Fact
 	// RetFromParam[fn][result][param]: the parameter can reach the result unsanitised
-	RetFromParam map[*ssa.Function]map[int]map[int]bool
-	Ret    map[*ssa.Function]map[int]*Fact
+	RetFromParam     map[*ssa.Function]map[int]map[int]bool
+	Ret              map[*ssa.Function]map[int]*Fact
 	UsedCleanSources map[string]bool
-	Sources int
-	changed bool
-	Iter    int
-	Funcs   int
+	Sources          int
+	changed          bool
+	Iter             int
+	Funcs            int
 }
 
 // RunFuncs computes the fixpoint over an explicit set of functions.
